@@ -698,8 +698,15 @@ func handleReferences[P topLevelEntryProto, S topLevelEntryStruct](r *RIB, niRIB
 }
 
 func (r *RIB) handleNHGReferences(niRIB *RIBHolder, original *aft.Afts_NextHopGroup, new *aftpb.Afts_NextHopGroup) {
-	// Increment all the new references.
+	// Increment all the new references. The next-hop list is keyed by index, so
+	// an index that is repeated in the protobuf is a single entry in the group
+	// (and is decremented only once when the group is removed).
+	seen := map[uint64]bool{}
 	for _, nh := range new.NextHop {
+		if seen[nh.GetIndex()] {
+			continue
+		}
+		seen[nh.GetIndex()] = true
 		niRIB.incNHRefCount(nh.GetIndex())
 	}
 
